@@ -2,7 +2,7 @@
 Import-free; the scalar/matrix operations are parameters. -/
 namespace QGen.C06
 
-/-! ### operators.py:542 `_compose_qoperations_MProcess_MProcess` -/
+/-! ### operators.py:544 `_compose_qoperations_MProcess_MProcess` -/
 
 /-- the nested loops and the `@` product -/
 def mmCompose {α : Type} (matmul : α → α → α) (hss1 hss2 : List α) : List α :=
@@ -12,23 +12,23 @@ def mmCompose {α : Type} (matmul : α → α → α) (hss1 hss2 : List α) : Li
 def mmShape (shape1 shape2 : List Nat) : List Nat :=
   shape2 ++ shape1
 
-/-! ### operators.py:701 `_compose_qoperations_Povm_MProcess` -/
+/-! ### operators.py:704 `_compose_qoperations_Povm_MProcess` -/
 
 /-- the nested loops; `tmv hs v` stands for `hs.T @ v` -/
 def pmCompose {μ ν : Type} (tmv : μ → ν → ν) (vecs : List ν) (hss : List μ) : List ν :=
   hss.flatMap fun hs => vecs.map fun vec => tmv hs vec
 
-/-! ### operators.py:655 `_compose_qoperations_MProcess_StateEnsemble` -/
+/-! ### operators.py:658 `_compose_qoperations_MProcess_StateEnsemble` -/
 
 def meShape (ensShape mpShape : List Nat) : List Nat :=
   ensShape ++ mpShape
 
-/-! ### operators.py:721 `_compose_qoperations_Povm_StateEnsemble` -/
+/-! ### operators.py:724 `_compose_qoperations_Povm_StateEnsemble` -/
 
 def peShape (ensShape nums : List Nat) : List Nat :=
   ensShape ++ nums
 
-/-! ### operators.py:566 `_compose_qoperations_MProcess_State_for_States` -/
+/-! ### operators.py:569 `_compose_qoperations_MProcess_State_for_States` -/
 
 /-- the truncation test `weight * p_x <= elem1.eps_zero` -/
 def truncated {K : Type} [Mul K] [LE K] [DecidableLE K] (weight p_x eps_zero : K) : Bool :=
@@ -36,5 +36,13 @@ def truncated {K : Type} [Mul K] [LE K] [DecidableLE K] (weight p_x eps_zero : K
 
 /-- the post states are divided by the probabilities taken before the renormalisation -/
 def postStatesUseRaw : Bool := true
+
+/-! ### operators.py:426 `_compose_qoperations`: the `eps_zero` handed to the composite
+(`eps1` / `eps2` = `elem1.eps_zero` / `elem2.eps_zero`) -/
+
+def gmEps (eps1 eps2 : Rat) : Rat := eps2
+def mgEps (eps1 eps2 : Rat) : Rat := eps1
+def mmEps (eps1 eps2 : Rat) : Rat := (if eps1 < eps2 then eps2 else eps1)
+def geEps (eps1 eps2 : Rat) : Rat := eps2
 
 end QGen.C06
